@@ -160,6 +160,9 @@ var dnsPool = []string{
 }
 
 func genDNS(r *core.Rand) string {
+	if r.Chance(22) {
+		return genLongDNS(r)
+	}
 	if r.Chance(60) {
 		s := core.Pick(r, dnsPool)
 		if r.Chance(30) {
